@@ -421,6 +421,10 @@ class _AdversarialFairness(BaseEstimator):
             Array-like containing the sensitive features of the
             training data.
         """
+        if not self.warm_start and hasattr(self, "classes_"):
+            # warm_start=False: a call to fit discards the previous solution
+            # (models, transformers and classes_) and initializes again.
+            del self.classes_
         first_call = not hasattr(self, "classes_")
 
         X, y, A = self._validate_input(X, y, sensitive_features, first_call)
